@@ -8,8 +8,9 @@ solution operator of that level's network (C01, any schedule), the single-struct
 component's own matrix (bare component = solver with only that component), and the solution operator is
 unique — so a parent sees a placed solver exactly as a component whose matrix is the solution operator of
 the child.  The substitution step (the solutions of the parent network with the child replaced by that
-component are the restrictions of the solutions of the inlined network) is not yet a theorem; it is
-exercised by the oracle run on random hierarchies (DESIGN.md, C02). -/
+component are the restrictions of the solutions of the inlined network) is `ANet.substitution` below; the
+*executable* recursion over a whole hierarchy (`HNet.solveH`, what the driver runs) is tied to the flat
+circuit in `Properties/C02Hier.lean`. -/
 
 open NetD Solve
 
